@@ -419,33 +419,34 @@ theorem tie_get_directory_counts (footer : Gen.CentralDirectoryEnd) (cde : UInt6
       Model.getDirectoryCounts (eocdOf footer) cde.toNat := by
   obtain ⟨t2, t3, h2, h3, h3v⟩ := seek_offset footer.zip_file_comment hlen
   have h1 : Rs.Arith.add (20 : Int64) (22 : Int64) = some 42 := by decide
+  have e20 : (20 : UInt64).toNat = 20 := by decide
+  have hn : _ = if cde.toNat < (eocdOf footer).cdSize.toNat + (eocdOf footer).cdOffset.toNat then _ else _ :=
+    counts_none cde footer.central_directory_size footer.central_directory_offset
+      footer.number_of_files_on_this_disk
+  simp only [Rs.R.ok_or, Rs.R.lift, Rs.zerr] at hn
   unfold Gen.ZipArchive.get_directory_counts Model.getDirectoryCounts
+  by_cases h20 : cde.toNat < 20
+  · -- the end record less than 20 bytes into the file: no probe, no I/O
+    have hd : decide (cde < (20 : UInt64)) = true := by
+      rw [decide_eq_true_iff, UInt64.lt_iff_toNat_lt, e20]; exact h20
+    rw [hd, if_pos rfl, if_pos h20]
+    msimp
+    exact hn
+  have hd : decide (cde < (20 : UInt64)) = false := by
+    rw [decide_eq_false_iff_not, UInt64.lt_iff_toNat_lt, e20]; exact h20
+  rw [hd, if_neg (by simp), if_neg h20]
   rw [h1]
   msimp
   rw [h2]
   msimp
   rw [h3]
-  msimp [h3v, M.attempt_map]
-  have hn : _ = if cde.toNat < (eocdOf footer).cdSize.toNat + (eocdOf footer).cdOffset.toNat then _ else _ :=
-    counts_none cde footer.central_directory_size footer.central_directory_offset
-      footer.number_of_files_on_this_disk
-  simp only [Rs.R.ok_or, Rs.R.lift, Rs.zerr] at hn
-  refine bind_congr fun sk => ?_
-  cases sk with
-  | error e =>
-    -- only the refused seek to a negative position (`InvalidInput`) means "no locator"
-    cases e with
-    | io k =>
-      cases k <;> first
-        | (simp only [Except.map]; msimp; exact hn)
-        | (simp only [Except.map]; msimp)
-    | _ => (simp only [Except.map]; msimp)
-  | ok p =>
-    simp only [Except.map]
-    rw [← tie_locator_parse]
-    msimp [M.attempt_map]
-    refine bind_congr fun r => ?_
-    cases r with
+  msimp [h3v]
+  -- the probe seek is `?`-propagated on both sides
+  refine bind_congr fun p => ?_
+  rw [← tie_locator_parse]
+  msimp [M.attempt_map]
+  refine bind_congr fun r => ?_
+  cases r with
     | error e =>
       cases e <;> first
         | (simp only [Except.map]; msimp; exact hn)
